@@ -1245,6 +1245,26 @@ def m_ok_or(it, S, t, callee, args):
 
 
 # ----------------------------------------------------------------------------- equality
+def _promoted_local_const(it, v):
+    """a load of a local of a promoted body (the referent inside a promoted `&Some(&0)`) is the constant that body assigns to it"""
+    if isinstance(v, tuple) and v[0] == "ld" and v[2] == "entry" and v[1][0][0] == "L" and not v[1][1] and len(v[1][0]) > 2:
+        pb = it.ctx.prog.bodies.get(v[1][0][2])
+        if pb is not None and pb.kind == "promoted":
+            hits = []
+            for bl in pb.blocks:
+                for st in bl["stmts"]:
+                    pl = st["place"]
+                    if pl.get("l") == v[1][0][1] and not pl.get("p"):
+                        hits.append(st["rv"])
+            if len(hits) == 1 and hits[0]["k"] == "use" and "k" in hits[0]["a"]:
+                c = hits[0]["a"]["k"]
+                if "int" in c:
+                    return K(tykey(c["t"]), int(c["int"]))
+                if "bool" in c:
+                    return K("bool", 1 if c["bool"] else 0)
+    return v
+
+
 def m_eq_generic(it, S, t, callee, args):
     name = norm_name(callee.get("pretty"))
     neg = name.endswith("::ne")
@@ -1275,6 +1295,47 @@ def m_eq_generic(it, S, t, callee, args):
         # Option<T> equality for a scalar T: both None, or both Some with equal payloads (derived PartialEq)
         g = (inner.get("s") or "")
         m = re.match(r"^(?:std|core)::option::Option<(u8|u16|u32|u64|usize|i8|i16|i32|i64|isize|bool|char)>$", g)
+        mref = re.match(r"^(?:std|core)::option::Option<&(?:'\w+ )?(u8|u16|u32|u64|usize|i8|i16|i32|i64|isize|bool|char)>$", g) if not m else None
+        if mref:
+            # Option<&T>: equal iff both None or both Some with equal referents; what the rules need is the variant: a comparison
+            # with a known Some(..) that comes out true proves the other side is Some (e.g. first() == Some(&0) proves len >= 1)
+            da, db = it.discr_of(S, a, inner), it.discr_of(S, b, inner)
+            ca, cb = const_val(da), const_val(db)
+            if ca is None and S.dom(da).lo == S.dom(da).hi:
+                ca = S.dom(da).lo
+            if cb is None and S.dom(db).lo == S.dom(db).hi:
+                cb = S.dom(db).lo
+            if ca is not None and cb is not None and ca != cb:
+                return K("bool", 1 if neg else 0)
+            if ca is not None and cb is not None and ca == 0:
+                return K("bool", 0 if neg else 1)
+            R = ("model", "option-ref-eq", a, it.deref_value(S, b, 2) if False else b)      # a pure observer: a term over the two values
+            set_ty(R, "bool")
+            eq_val = 0 if neg else 1
+            if (ca is None) != (cb is None):
+                known, d_other = (cb, da) if cb is not None else (ca, db)
+                if known == 1:
+                    facts_ = [("dom", d_other, Dom(1, 1))]
+                    # ... and the two referents are equal
+                    pa, pb = project(a, (("dc", 1, "Some"), ("f", 0, "0"))), project(b, (("dc", 1, "Some"), ("f", 0, "0")))
+                    try:
+                        va, vb = it.deref_value(S, pa, 1), it.deref_value(S, pb, 1)
+                    except Exception as e_:
+                        va = vb = None
+                    va, vb = _promoted_local_const(it, va), _promoted_local_const(it, vb)
+                    if va is not None and vb is not None:
+                        for x in (va, vb):
+                            if sv_type(x) is None and not is_const(x):
+                                set_ty(x, mref.group(1))
+                        facts_ += [("le", va, vb, 0), ("le", vb, va, 0)]
+                    it.cond[(R, eq_val)] = facts_
+                elif False:
+                    it.cond[(R, eq_val)] = [("dom", d_other, Dom(1, 1))]
+                else:
+                    it.cond[(R, eq_val)] = [("dom", d_other, Dom(0, 0))]
+                    it.cond[(R, 1 - eq_val)] = [("dom", d_other, Dom(1, 1))]
+            S.set_dom(R, Dom(0, 1))
+            return R
         if m:
             da, db = it.discr_of(S, a, inner), it.discr_of(S, b, inner)
             pa, pb = project(a, (("dc", 1, "Some"), ("f", 0, "0"))), project(b, (("dc", 1, "Some"), ("f", 0, "0")))
